@@ -71,7 +71,7 @@ func vecBatch(rng *rand.Rand, class string, prefix string) *model.Batch {
 
 // C14 — vector search: true scores, live docs, exact top-k when exact.
 func c14(c *Ctx) {
-	n := c.N(800, 80000)
+	n := c.N(800, 200000)
 	tallEvery := c.N(50, 60)
 	for i := 0; i < n; i++ {
 		if !c.Mine(i) {
@@ -193,7 +193,7 @@ func bmOf(s map[uint32]bool, emptyAsNil bool) *roaring.Bitmap {
 func c16hist(c *Ctx) {
 	zap.VerifSetVecMonitorFreq(time.Hour) // the timer is parked: expiry is an explicit event
 	c16clustered(c)
-	maxLen := c.N(5, 6)
+	maxLen := c.N(5, 7)
 	rng := c.Rng(0)
 	// fixture: one segment with a vector field, persisted once
 	// the fixture has two vector fields that are neighbours in the field table (the
@@ -485,7 +485,7 @@ func c16run(c *Ctx, id, path, field, neighbour string, vm *model.VecModel, m *mo
 // C16 part B: concurrent searchers with the expiry monitor running.
 func c16stress(c *Ctx) {
 	zap.VerifSetVecMonitorFreq(time.Millisecond)
-	rounds := c.N(60, 1500)
+	rounds := c.N(60, 4000)
 	for i := 0; i < rounds; i++ {
 		if !c.Mine(i) {
 			continue
@@ -649,7 +649,7 @@ func c16stress(c *Ctx) {
 var c19ops = []string{"IndexFactory", "SetDirectMap", "Train", "AddWithIDs", "WriteIndexIntoBuffer", "ReadIndexFromBuffer", "ReconstructBatch"}
 
 func c19(c *Ctx) {
-	n := c.N(60, 6000)
+	n := c.N(60, 20000)
 	for i := 0; i < n; i++ {
 		if !c.Mine(i) {
 			continue
@@ -930,7 +930,7 @@ func engineQuiescentKeepInputs(c *Ctx, tag string) { engineQuiescent(c, tag) }
 // history of those searches and expiry passes on one more opening of the segment
 // must give the same answers.
 func c16clustered(c *Ctx) {
-	n := c.N(16, 160)
+	n := c.N(16, 800)
 	for j := 0; j < n; j++ {
 		if !c.Mine(j) {
 			continue
